@@ -448,6 +448,7 @@ func runC40(w *World, r *Report) {
 	}
 
 	c40MutexReleases(w, r)
+	c40VariableBounds(w, r, fns)
 }
 
 var c40ParsedOK = map[string]string{
